@@ -229,6 +229,7 @@ pub fn main(args: &Args) -> i32 {
     let long_every = args.num("long-every", 0);
     let mut out = std::io::BufWriter::new(std::fs::File::create(args.get("trace").expect("--trace")).expect("trace"));
     let mut nev = 0u64;
+    let mut nlong = 0usize;
     let mut by_op: std::collections::BTreeMap<String, u64> = Default::default();
     for run in 0..runs {
         let mut g = Gen { rng: Rng::new(seed * 1_000_003 + run), tabs: vec![], cp: 65001, strings: vec![], next_tab: 0, streams: vec![] };
@@ -245,10 +246,19 @@ pub fn main(args: &Args) -> i32 {
                 let name = format!("L{}", step);
                 let _ = sess.exec(&json!({"op": "CreateTable", "args": {"table": cps(&name), "cols": [col_json(&ColG { name: "K".into(), ty: "i16", width: 0, nullable: false, key: true, cat: None, loc: false }), col_json(&ColG { name: "V".into(), ty: "s", width: 0, nullable: true, key: false, cat: None, loc: false })]}}));
                 let _ = writeln!(out, "{}", json!({"op": "Reset", "args": {"x": 0}, "res": "Ok", "st": log_state(&mut sess)}));
-                ev = json!({"op": "Insert", "args": {"table": cps(&name), "rows": [[{"i": 1}, {"s": cps(&"\u{e9}x".repeat(35000))}]]}});
-                if !ref_encode(g.cp, "\u{e9}").map(|b| b != b"?").unwrap_or(false) {
-                    ev = json!({"op": "Insert", "args": {"table": cps(&name), "rows": [[{"i": 1}, {"s": cps(&"xy".repeat(35000))}]]}});
-                }
+                // encoded lengths around the 16-bit length field of the pool (65535 is the last short form,
+                // 65536 the first long form), then well beyond it with a two-byte character
+                let lens = [65535usize, 65536, 65534, 0, 65537];
+                let want = lens[nlong % lens.len()];
+                nlong += 1;
+                let long: String = if want > 0 {
+                    "xy".repeat(want / 2 + 1)[..want].to_string()
+                } else if ref_encode(g.cp, "\u{e9}").map(|b| b != b"?").unwrap_or(false) {
+                    "\u{e9}x".repeat(35000)
+                } else {
+                    "xy".repeat(35000)
+                };
+                ev = json!({"op": "Insert", "args": {"table": cps(&name), "rows": [[{"i": 1}, {"s": cps(&long)}]]}});
             }
             let res = sess.exec(&ev);
             last_flush_ok = ev["op"] == "Flush" && res == "Ok";
